@@ -374,20 +374,16 @@ theorem seqBody_rel (f : Fmt) (hint : Option Nat) (len : Nat) (st : FState) (goo
     (hlen : ∀ ds, img = .ok ds → ds.length = len)
     (hl : RelL f (serializeSeq f hint st).state (serializeSeq f hint st).st goodL empty
             (fun n ds => elemsFrom f n ((serializeSeq f hint st).state == .first) ds) res img) :
-    Rel f st good
-      (match (generalizing := false) res with
-       | .error e => .error e
-       | .ok r => .ok ((W.mk ((serializeSeq f hint st).bufs ++ r.bufs) r.st).andThen (seqEnd f r.state)))
-      (match (generalizing := false) img with | .ok ds => .ok (.arr ds) | .error e => .error e) := by
+    Rel f st good (finishSeq f (serializeSeq f hint st) res) (img.map .arr) := by
   cases res with
   | error e => cases img with
-    | error e' => simpa [RelL, Rel] using hl
+    | error e' => simpa [RelL, Rel, finishSeq, Except.map] using hl
     | ok ds => simp [RelL] at hl
   | ok r => cases img with
     | error e' => simp [RelL] at hl
     | ok ds =>
       simp only [RelL] at hl
-      simp only [Rel]
+      simp only [Rel, finishSeq, Except.map]
       intro hgood n hd
       obtain ⟨hh, hw⟩ := hg hgood
       have hlen' := hlen ds rfl
@@ -422,20 +418,16 @@ theorem mapBody_rel (f : Fmt) (hint : Option Nat) (len : Nat) (st : FState) (goo
     (hlen : ∀ ds, img = .ok ds → ds.length = len)
     (hl : RelL f (serializeMap f hint st).state (serializeMap f hint st).st goodL empty
             (fun n ds => membersFrom f n ((serializeMap f hint st).state == .first) ds) res img) :
-    Rel f st good
-      (match (generalizing := false) res with
-       | .error e => .error e
-       | .ok r => .ok ((W.mk ((serializeMap f hint st).bufs ++ r.bufs) r.st).andThen (mapEnd f r.state)))
-      (match (generalizing := false) img with | .ok ds => .ok (.obj ds) | .error e => .error e) := by
+    Rel f st good (finishMap f (serializeMap f hint st) res) (img.map .obj) := by
   cases res with
   | error e => cases img with
-    | error e' => simpa [RelL, Rel] using hl
+    | error e' => simpa [RelL, Rel, finishMap, Except.map] using hl
     | ok ds => simp [RelL] at hl
   | ok r => cases img with
     | error e' => simp [RelL] at hl
     | ok ds =>
       simp only [RelL] at hl
-      simp only [Rel]
+      simp only [Rel, finishMap, Except.map]
       intro hgood n hd
       obtain ⟨hh, hw⟩ := hg hgood
       have hlen' := hlen ds rfl
@@ -478,19 +470,15 @@ theorem structVariantEnd_eq (f : Fmt) (pre : List Bytes) (s : State) (st : FStat
 theorem variant_rel (f : Fmt) (v : Bytes) (st : FState) (good : Prop)
     (res : Except SerErr W) (img : Except SerErr DV)
     (h : Rel f (variantOpen f v st).st good res img) :
-    Rel f st good
-      (match (generalizing := false) res with
-       | .error e => .error e
-       | .ok r => .ok (((W.mk ((variantOpen f v st).bufs ++ r.bufs) r.st).andThen (endObjectValue f)).andThen (endObject f)))
-      (match (generalizing := false) img with | .ok d => .ok (tagged v d) | .error e => .error e) := by
+    Rel f st good (finishNewtypeVariant f (variantOpen f v st) res) (img.map (tagged v)) := by
   cases res with
   | error e => cases img with
-    | error e' => simpa [Rel] using h
+    | error e' => simpa [Rel, finishNewtypeVariant, Except.map] using h
     | ok d => simp [Rel] at h
   | ok r => cases img with
     | error e' => simp [Rel] at h
     | ok d =>
-      simp only [Rel] at h ⊢
+      simp only [Rel, finishNewtypeVariant, Except.map] at h ⊢
       intro hg n hd
       obtain ⟨ho1, ho2⟩ := variantOpen_spec f v st n hd
       obtain ⟨h1, h2⟩ := h hg (n + 1) ho2
@@ -531,26 +519,22 @@ theorem ser_rel : ∀ (p : SVal) (st : FState), Rel f st (p.wf = true) (ser ext 
   | .newtypeStruct p, st => by simpa [ser, image, SVal.wf] using ser_rel p st
   | .newtypeVariant v p, st => by
     have h := variant_rel f v st (p.wf = true) _ _ (ser_rel p (variantOpen f v st).st)
-    simp only [ser, image, SVal.wf]
-    close_rel h with ser ext f p (variantOpen f v st).st, image ext p
+    simpa only [ser, image, SVal.wf] using h
   | .seq hint xs, st => by
     have h := seqBody_rel f hint xs.length st ((SVal.seq hint xs).wf = true) (wfList xs = true) xs.isEmpty _ _
       (by simp [SVal.wf]) (isEmpty_eq_decide xs) (imageList_length ext xs)
       (serElems_rel xs (serializeSeq f hint st).state (serializeSeq f hint st).st)
-    simp only [ser, serSeqBody, image]
-    close_rel h with serElems ext f xs (serializeSeq f hint st).state (serializeSeq f hint st).st, imageList ext xs
+    simpa only [ser, image] using h
   | .tuple xs, st => by
     have h := seqBody_rel f (some xs.length) xs.length st ((SVal.tuple xs).wf = true) (wfList xs = true) xs.isEmpty _ _
       (by simp [SVal.wf, hintOK]) (isEmpty_eq_decide xs) (imageList_length ext xs)
       (serElems_rel xs (serializeSeq f (some xs.length) st).state (serializeSeq f (some xs.length) st).st)
-    simp only [ser, serSeqBody, image]
-    close_rel h with serElems ext f xs (serializeSeq f (some xs.length) st).state (serializeSeq f (some xs.length) st).st, imageList ext xs
+    simpa only [ser, image] using h
   | .tupleStruct xs, st => by
     have h := seqBody_rel f (some xs.length) xs.length st ((SVal.tupleStruct xs).wf = true) (wfList xs = true) xs.isEmpty _ _
       (by simp [SVal.wf, hintOK]) (isEmpty_eq_decide xs) (imageList_length ext xs)
       (serElems_rel xs (serializeSeq f (some xs.length) st).state (serializeSeq f (some xs.length) st).st)
-    simp only [ser, serSeqBody, image]
-    close_rel h with serElems ext f xs (serializeSeq f (some xs.length) st).state (serializeSeq f (some xs.length) st).st, imageList ext xs
+    simpa only [ser, image] using h
   | .tupleVariant v xs, st => by
     have h1 := seqBody_rel f (some xs.length) xs.length (variantOpen f v st).st ((SVal.tupleVariant v xs).wf = true)
       (wfList xs = true) xs.isEmpty _ _
@@ -561,7 +545,8 @@ theorem ser_rel : ∀ (p : SVal) (st : FState), Rel f st (p.wf = true) (ser ext 
     simp only [ser, image]
     cases hr : serElems ext f xs (serializeSeq f (some xs.length) (variantOpen f v st).st).state
         (serializeSeq f (some xs.length) (variantOpen f v st).st).st <;>
-      cases hi : imageList ext xs <;> simp only [hr, hi] at h ⊢
+      cases hi : imageList ext xs <;>
+      simp only [hr, hi, finishSeq, finishNewtypeVariant, finishTupleVariant, Except.map] at h ⊢
     · exact h
     · exact h
     · exact h
@@ -571,14 +556,12 @@ theorem ser_rel : ∀ (p : SVal) (st : FState), Rel f st (p.wf = true) (ser ext 
     have h := mapBody_rel f hint es.length st ((SVal.map hint es).wf = true) (wfEntries es = true) es.isEmpty _ _
       (by simp [SVal.wf]) (isEmpty_eq_decide es) (imageEntries_length ext es)
       (serEntries_rel es (serializeMap f hint st).state (serializeMap f hint st).st)
-    simp only [ser, image]
-    close_rel h with serEntries ext f es (serializeMap f hint st).state (serializeMap f hint st).st, imageEntries ext es
+    simpa only [ser, image] using h
   | .struct_ fs, st => by
     have h := mapBody_rel f (some fs.length) fs.length st ((SVal.struct_ fs).wf = true) (wfFields fs = true) fs.isEmpty _ _
       (by simp [SVal.wf, hintOK]) (isEmpty_eq_decide fs) (imageFields_length ext fs)
       (serFields_rel fs (serializeMap f (some fs.length) st).state (serializeMap f (some fs.length) st).st)
-    simp only [ser, image]
-    close_rel h with serFields ext f fs (serializeMap f (some fs.length) st).state (serializeMap f (some fs.length) st).st, imageFields ext fs
+    simpa only [ser, image] using h
   | .structVariant v fs, st => by
     have h1 := mapBody_rel f (some fs.length) fs.length (variantOpen f v st).st ((SVal.structVariant v fs).wf = true)
       (wfFields fs = true) fs.isEmpty _ _
@@ -589,7 +572,8 @@ theorem ser_rel : ∀ (p : SVal) (st : FState), Rel f st (p.wf = true) (ser ext 
     simp only [ser, image]
     cases hr : serFields ext f fs (serializeMap f (some fs.length) (variantOpen f v st).st).state
         (serializeMap f (some fs.length) (variantOpen f v st).st).st <;>
-      cases hi : imageFields ext fs <;> simp only [hr, hi] at h ⊢
+      cases hi : imageFields ext fs <;>
+      simp only [hr, hi, finishMap, finishNewtypeVariant, finishStructVariant, Except.map] at h ⊢
     · exact h
     · exact h
     · exact h
